@@ -26,7 +26,7 @@ def faces_after_interp(chk, disc, field):
     return disc.attrs["pL"][0], disc.attrs["pR"][0]
 
 
-def build(chk):
+def _build1d(chk):
     it = chk.interp
     chk.assumptions += [
         "machine arithmetic treated as mathematical (real) arithmetic",
@@ -183,3 +183,78 @@ def build(chk):
                         want = -(a / dx) * (ustar(i) - ustar(i - 1))
                         prove("stencil/%s" % nm, T.treal(r0.at(i)) == want, replay=rp)
                 chk.run(cfg, stencil)
+
+
+def build2d(chk):
+    """2-D: along each grid direction the face states of extrapol2dk(kappa) on the periodic Cartesian grid are the kappa-scheme
+    states  u_i +- [(1-kappa)/4 (backward difference) + (1+kappa)/4 (forward difference)]  of the cells of that row / column
+    (with periodic wrap), for every primitive component -- the 2-D counterpart of the 1-D stencil clause; extrapol2d1 returns the
+    adjacent cell values.  Generic cell, symbolic nx, ny >= 1, kappa."""
+    from .C15 import C2PContract, cons_arrays, xface, yface, QN_C2P
+    from contracts.flux_contract import use_flux_contract
+    from pyvc.framework import lazy_safety
+    it = chk.interp
+    for numname, haskappa in (("extrapol2d1", False), ("extrapol2dk", True)):
+        cfg = "fvm2dcart/%s/face-states" % numname
+        chk.configs.append(cfg)
+        rp = {"fn": "kappa2d_clause", "args": {"num": numname}}
+
+        def st(numname=numname, haskappa=haskappa, rp=rp):
+            nx, ny = z3.Int("nx"), z3.Int("ny")
+            lx, ly = z3.Real("lx"), z3.Real("ly")
+            assume(z3.And(nx >= 1, ny >= 1, lx > 0, ly > 0))
+            a, b = z3.Int("a"), z3.Int("b")
+            assume(z3.And(a >= 0, a < ny, b >= 0, b < nx))
+            lemma("index-products", z3.And(a * nx >= 0, (ny - 1 - a) * nx >= 0, (nx - 1) * (ny - 1) >= 0))
+            for t in (0, 1, 2, 3):
+                lemma("index-products/a/%d" % t,
+                      z3.And(z3.Implies(a >= t, (a - t) * nx >= 0), z3.Implies(a <= t, (t - a) * nx >= 0),
+                             z3.Implies(a <= ny - 1 - t, (ny - 1 - t - a) * nx >= 0),
+                             z3.Implies(a >= ny - 1 - t, (a - (ny - 1 - t)) * nx >= 0)))
+            mesh = it.call(get(chk, "flowdyn.mesh2d", "mesh2d"), [nx, ny, lx, ly], {})
+            m, info = make_model(chk, "euler2d")
+            kap = z3.Real("kappa")
+            num = it.call(get(chk, "flowdyn.xnum", numname), [kap] if haskappa else [], {})
+            per = {"type": "per"}
+            disc = it.call(get(chk, "flowdyn.modeldisc", "fvm2dcart"), [m, mesh, num, {"left": per, "right": per, "bottom": per, "top": per}], {})
+            n = nx * ny
+            Q = cons_arrays(n)
+            fld = make_field(chk, m, mesh, Q)
+            it.contracts[QN_C2P] = C2PContract()
+            it.active_contracts.add(QN_C2P)
+            try:
+                with use_flux_contract(it, "euler2d", info, clauses=(), requires=False, opaque=True) as fc, lazy_safety():
+                    it.call(it.getattr(disc, "rhs"), [fld], {})
+            finally:
+                it.active_contracts.discard(QN_C2P)
+            pd = [disc.attrs["pdata"][0], disc.attrs["pdata"][1].rows[0], disc.attrs["pdata"][1].rows[1], disc.attrs["pdata"][2]]
+            prv = lambda v, N: z3.If(v >= 1, v - 1, N - 1)
+            nxt = lambda v, N: z3.If(v <= N - 2, v + 1, 0)
+            km, kp = ((1 - kap) / 4, (1 + kap) / 4) if haskappa else (0, 0)
+            names = ("rho", "ux", "uy", "p")
+
+            def P(k, r, c):
+                return T.treal(pd[k].at(T.simp(r * nx + c)))
+            # x-direction: the face on the left of cell (a, b): left state from cell (a, b-1), right state from cell (a, b)
+            argsx = fc.last["args_at"](xface(nx, a, b))
+            bm, bmm, bp = prv(b, nx), prv(prv(b, nx), nx), nxt(b, nx)
+            for k in range(4):
+                wantL = P(k, a, bm) + km * (P(k, a, bm) - P(k, a, bmm)) + kp * (P(k, a, b) - P(k, a, bm))
+                wantR = P(k, a, b) - km * (P(k, a, bp) - P(k, a, b)) - kp * (P(k, a, b) - P(k, a, bm))
+                prove("along-x/left-state-is-the-kappa-state[%s]" % names[k], argsx[k] == wantL, replay=rp)
+                prove("along-x/right-state-is-the-kappa-state[%s]" % names[k], argsx[4 + k] == wantR, replay=rp)
+            # y-direction: the face below cell (a, b)
+            argsy = fc.last["args_at"](yface(nx, ny, a, b))
+            am, amm, ap = prv(a, ny), prv(prv(a, ny), ny), nxt(a, ny)
+            for k in range(4):
+                wantL = P(k, am, b) + km * (P(k, am, b) - P(k, amm, b)) + kp * (P(k, a, b) - P(k, am, b))
+                wantR = P(k, a, b) - km * (P(k, ap, b) - P(k, a, b)) - kp * (P(k, a, b) - P(k, am, b))
+                prove("along-y/left-state-is-the-kappa-state[%s]" % names[k], argsy[k] == wantL, replay=rp)
+                prove("along-y/right-state-is-the-kappa-state[%s]" % names[k], argsy[4 + k] == wantR, replay=rp)
+            canary("canary", argsx[0] == argsx[0] + 1)
+        chk.run(cfg, st)
+
+
+def build(chk):
+    _build1d(chk)
+    build2d(chk)
